@@ -1,10 +1,182 @@
-//! Stratum B of the program corpus (composed programs). Filled in by gen.rs.
+//! Stratum B of the program corpus: seeded composed programs (gen.rs), a deterministic
+//! function of (shard, index). C01 compares them with reference-engine goldens; the
+//! invariance checks (C02, C03, C11, C12, C14, C19) reuse the same programs.
 #![allow(dead_code)]
-use crate::util::*;
 
-pub fn b_units(_ctx: &Ctx) -> usize {
-    0
+use crate::checks::c01;
+use crate::compose;
+use crate::isolate::{self, Exit, Limits};
+use crate::runner::{self, RunConfig};
+use crate::util::*;
+use serde_json::json;
+
+pub const B_SHARDS: u64 = 32;
+pub const B_PER_SHARD: u64 = 480;
+const SUB: u64 = 120; // programs per unit
+
+pub struct BProg {
+    pub id: String,
+    pub marked: String,
+    pub src: String,
+    pub features: Vec<&'static str>,
 }
-pub fn run_b_unit(_r: &mut UnitResult, _ctx: &Ctx, _idx: usize) {}
-pub fn replay_b(_r: &mut UnitResult, _id: &str) {}
-pub fn dump_b(_ctx: &Ctx) {}
+
+pub fn b_program(shard: u64, index: u64) -> BProg {
+    let p = compose::generate("corpus-b", shard, index);
+    let src = compose::wrap(&compose::render_js(&p.marked));
+    BProg { id: format!("B/{}/{}", shard, index), marked: p.marked, src, features: p.features }
+}
+
+fn shards_for(ctx: &Ctx) -> Vec<u64> {
+    if ctx.thorough() {
+        (0..B_SHARDS).collect()
+    } else {
+        // four shards chosen by the seed; all shards were vetted, so every seed is silent
+        (0..4).map(|k| (ctx.seed * 4 + k) % B_SHARDS).collect()
+    }
+}
+
+pub fn b_units(ctx: &Ctx) -> usize {
+    shards_for(ctx).len() * (B_PER_SHARD / SUB) as usize
+}
+
+pub fn unit_programs(ctx: &Ctx, idx: usize) -> Vec<BProg> {
+    let shards = shards_for(ctx);
+    let per = (B_PER_SHARD / SUB) as usize;
+    let shard = shards[idx / per];
+    let lo = (idx % per) as u64 * SUB;
+    (lo..lo + SUB).map(|i| b_program(shard, i)).collect()
+}
+
+/// Run a list of whole programs in one forked child (collector off), returning the
+/// observable outcome string per program; programs the child did not deliver are re-run
+/// one by one in their own child.
+pub fn run_isolated(progs: &[(String, String)], cfg: &RunConfig) -> Vec<String> {
+    let lim = Limits { wall: std::time::Duration::from_secs(240), address_space: 3 << 30, stack: 0 };
+    let exit = isolate::run(&lim, || {
+        for (i, (_, src)) in progs.iter().enumerate() {
+            let o = runner::run_fresh(src, cfg);
+            isolate::emit(&format!("{}\u{2}{}\u{3}", i, outcome_string(&o)));
+        }
+        String::new()
+    });
+    let text = match exit {
+        Exit::Ok(t) | Exit::Signal(_, t) | Exit::Status(_, t) | Exit::Timeout(t) => t,
+    };
+    let mut outs: Vec<Option<String>> = vec![None; progs.len()];
+    for rec in text.split('\u{3}') {
+        if let Some((i, body)) = rec.split_once('\u{2}')
+            && let Ok(i) = i.parse::<usize>()
+            && i < outs.len()
+        {
+            outs[i] = Some(body.to_string());
+        }
+    }
+    outs.into_iter()
+        .enumerate()
+        .map(|(i, o)| match o {
+            Some(s) => s,
+            None => {
+                let src = progs[i].1.clone();
+                let cfg = cfg.clone();
+                let lim = Limits { wall: std::time::Duration::from_secs(30), address_space: 3 << 30, stack: 0 };
+                match isolate::run(&lim, move || outcome_string(&runner::run_fresh(&src, &cfg))) {
+                    Exit::Ok(t) => t,
+                    Exit::Signal(s, _) => format!("!crash {}", isolate::signal_name(s)),
+                    Exit::Status(c, t) => {
+                        if let Some(k) = t.find("\u{1}PANIC") {
+                            format!("!panic {}", truncate(&t[k + 7..], 80))
+                        } else {
+                            format!("!exit {}", c)
+                        }
+                    }
+                    Exit::Timeout(_) => "!timeout".into(),
+                }
+            }
+        })
+        .collect()
+}
+
+/// What the reference engine driver would print for the same program.
+pub fn outcome_string(o: &runner::Outcome) -> String {
+    match o.kind.as_str() {
+        "value" => o.value.clone(),
+        "error" => format!("!{}", o.error_class),
+        k => format!("!{}", k),
+    }
+}
+
+pub fn run_b_unit(r: &mut UnitResult, ctx: &Ctx, idx: usize) {
+    let progs = unit_programs(ctx, idx);
+    let goldens = c01::load_goldens("C01B.tsv");
+    let cfg = RunConfig { max_steps: 3_000_000, gc_threshold: Some(0), ..Default::default() };
+    let pairs: Vec<(String, String)> = progs.iter().map(|p| (p.id.clone(), p.src.clone())).collect();
+    let outs = run_isolated(&pairs, &cfg);
+    for (p, got) in progs.iter().zip(outs.iter()) {
+        judge_b(r, p, got, &goldens);
+    }
+    if let Some(p) = progs.first() {
+        r.sample(json!({"program": p.id, "features": p.features, "source_js": truncate(&compose::render_js(&p.marked), 700)}));
+    }
+}
+
+fn judge_b(r: &mut UnitResult, p: &BProg, got: &str, goldens: &std::collections::HashMap<String, (String, String)>) {
+    r.evaluations += 1;
+    let Some((h, want)) = goldens.get(&p.id) else {
+        r.inconclusive += 1;
+        r.note(format!("no golden for {}", p.id));
+        return;
+    };
+    if *h != hash_hex(&p.src) {
+        r.inconclusive += 1;
+        r.note(format!("stale golden for {}", p.id));
+        return;
+    }
+    // the reference driver prints "!<ErrorName>: message" for an uncaught error
+    let want_norm = if let Some(rest) = want.strip_prefix('!') {
+        format!("!{}", rest.split(':').next().unwrap_or(""))
+    } else {
+        want.clone()
+    };
+    if want_norm.starts_with("!Error") && want.contains("Script execution timed out") {
+        r.inconclusive += 1;
+        return;
+    }
+    r.nontrivial += 1;
+    if got == "!timeout" {
+        r.inconclusive += 1;
+        return;
+    }
+    for f in &p.features {
+        r.stat(&format!("feature_{}", f), 1);
+    }
+    if *got != want_norm {
+        r.violate(
+            format!("prog|{}|={}", p.id, hash_hex(got)),
+            format!("{} => tsrun {:?}, reference {:?}", p.id, truncate(got, 300), truncate(&want_norm, 300)),
+            json!({"id": p.id}),
+        );
+    }
+}
+
+pub fn replay_b(r: &mut UnitResult, id: &str) {
+    let parts: Vec<&str> = id.split('/').collect();
+    let (Some(s), Some(i)) = (parts.get(1).and_then(|x| x.parse().ok()), parts.get(2).and_then(|x| x.parse().ok())) else {
+        return;
+    };
+    let p = b_program(s, i);
+    let goldens = c01::load_goldens("C01B.tsv");
+    let cfg = RunConfig { max_steps: 3_000_000, gc_threshold: Some(0), ..Default::default() };
+    let outs = run_isolated(&[(p.id.clone(), p.src.clone())], &cfg);
+    judge_b(r, &p, &outs[0], &goldens);
+    eprintln!("--- {} ---\n{}", p.id, compose::render_js(&p.marked));
+}
+
+pub fn dump_b(_ctx: &Ctx) {
+    for shard in 0..B_SHARDS {
+        for i in 0..B_PER_SHARD {
+            let p = b_program(shard, i);
+            println!("{}", json!({"id": p.id, "src": p.src, "hash": hash_hex(&p.src), "golden": "C01B.tsv"}));
+        }
+    }
+}
